@@ -19,6 +19,8 @@ def show_ops(ops):
         o = tuple(o)
         if o[0] == "S":
             out.append(f"S(t{o[1]},c{o[2]:02d})")
+        elif o[0] == "SQ":
+            out.append(f"SQ(t{o[1]},c{o[2]:02d})")
         elif o[0] in ("X", "P"):
             out.append(f"{o[0]}({o[1]},{o[2]})")
         else:
